@@ -128,43 +128,44 @@ func parseWildcardConstraint(operator, version string) ([]*constraint, error) {
 	baseVersion := strings.TrimSuffix(version, ".*")
 
 	e := &Ecosystem{}
-	v, err := e.NewVersion(baseVersion + ".0")
+	v, err := e.NewVersion(baseVersion)
 	if err != nil {
 		return nil, err
 	}
+	if v.prerelease != "" || v.postrelease != -1 || v.dev != -1 || v.local != "" {
+		return nil, fmt.Errorf("unsupported wildcard constraint: %s%s", operator, version)
+	}
+
+	// The written release segments are the prefix: ==1.2.* means >=1.2.0, <1.3.0 and ==1.* means >=1.0, <2.0
+	n := len(v.release)
+	lower := make([]string, n)
+	upper := make([]string, n)
+	for i, segment := range v.release {
+		lower[i] = strconv.Itoa(segment)
+		if i == n-1 {
+			segment++
+		}
+		upper[i] = strconv.Itoa(segment)
+	}
+	lowerBound := strings.Join(lower, ".") + ".0"
+	upperBound := strings.Join(upper, ".") + ".0"
+	if v.epoch != 0 {
+		lowerBound = fmt.Sprintf("%d!%s", v.epoch, lowerBound)
+		upperBound = fmt.Sprintf("%d!%s", v.epoch, upperBound)
+	}
 
 	if operator == "==" {
-		// ==1.2.* means >=1.2.0, <1.3.0
-		if len(v.release) >= 2 {
-			lowerBound := fmt.Sprintf("%d.%d.0", v.release[0], v.release[1])
-			upperBound := fmt.Sprintf("%d.%d.0", v.release[0], v.release[1]+1)
-			return []*constraint{
-				{operator: ">=", version: lowerBound},
-				{operator: "<", version: upperBound},
-			}, nil
-		}
-
-		// ==1.* means >=1.0.0, <2.0.0
-		if len(v.release) >= 1 {
-			lowerBound := fmt.Sprintf("%d.0.0", v.release[0])
-			upperBound := fmt.Sprintf("%d.0.0", v.release[0]+1)
-			return []*constraint{
-				{operator: ">=", version: lowerBound},
-				{operator: "<", version: upperBound},
-			}, nil
-		}
+		return []*constraint{
+			{operator: ">=", version: lowerBound},
+			{operator: "<", version: upperBound},
+		}, nil
 	}
 
 	if operator == "!=" {
-		// !=1.2.* means <1.2.0 or >=1.3.0
-		if len(v.release) >= 2 {
-			lowerBound := fmt.Sprintf("%d.%d.0", v.release[0], v.release[1])
-			upperBound := fmt.Sprintf("%d.%d.0", v.release[0], v.release[1]+1)
-			return []*constraint{
-				{operator: "<", version: lowerBound},
-				{operator: ">=", version: upperBound},
-			}, nil
-		}
+		// !=1.2.* excludes exactly what ==1.2.* matches: <1.2.0 or >=1.3.0
+		return []*constraint{
+			{operator: "notin", version: lowerBound, upper: upperBound},
+		}, nil
 	}
 
 	return nil, fmt.Errorf("unsupported wildcard constraint: %s%s", operator, version)
@@ -190,6 +191,7 @@ func (pr *VersionRange) Contains(version *Version) bool {
 type constraint struct {
 	operator string
 	version  string
+	upper    string // exclusive upper bound of the excluded interval (operator "notin" only)
 }
 
 // matches checks if the given version matches this constraint
@@ -206,6 +208,14 @@ func (c *constraint) matches(version *Version) bool {
 	}
 
 	comparison := version.Compare(constraintVersion)
+
+	if c.operator == "notin" {
+		upperVersion, err := e.NewVersion(c.upper)
+		if err != nil {
+			return false
+		}
+		return comparison < 0 || version.Compare(upperVersion) >= 0
+	}
 
 	switch c.operator {
 	case "==":
